@@ -1,7 +1,7 @@
 (* Extraction of the executable model to OCaml. ExtrOcamlBasic only: bool, option, prod, list, unit,
    sumbool map to OCaml's; nat, N, Z, positive, ascii and string stay Coq inductives. *)
 From Verif Require Import Base.Bytes Model.Types Model.GoLite Model.Sigs Model.Detectors Model.Text Model.Tree
-  Model.Tar Model.Zip Model.Ole Model.Mkv Model.Json Model.Lines Model.Charset Model.Meta Model.Reader Model.Mime Model.Detect Model.SrcDetect
+  Model.Tar Model.Zip Model.Ole Model.Mkv Model.Json Model.Lines Model.Charset Model.Meta Model.Reader Model.Mime Model.Detect Model.SrcDetect Model.Order
   Gen.TreeData Gen.SigData Gen.Tables Spec.SpecText Spec.JsonJudge Spec.JsonSubtype Spec.SpecCharset Spec.SpecTar Spec.SpecZip Spec.SpecMime.
 From Verif Require Legacy.JsonLegacy.
 Require Import ExtrOcamlBasic.
@@ -26,5 +26,5 @@ Extraction "model.ml"
   tar_det tar_parse_octal usum ssum tar_header_ok gpkg_name root_kids id_of_var
   zc skip_files crx_det match_ole_clsid matroska
   lookup insert_first flatten height
-  src_verdicts
+  src_verdicts tree_pinned order_respected
   b.
